@@ -26,6 +26,10 @@ class HyteraIPSCWakeup(Burst):
         # IPSC Sync is not interleaved
         return bits
 
+    def extract_data(self) -> None:
+        # IPSC Wakeup carries no ETSI DMR data, whatever pattern its bytes happen to show in the burst centre
+        return None
+
     def as_bits(self) -> bitarray:
         return self.full_bits
 
